@@ -11,8 +11,12 @@ import (
 
 // buildVC generates all obligations of one function.
 func (eng *Engine) buildVC(fn *ssa.Function) (vc *FnVC) {
-	key := fnKey(fn)
-	vc = &FnVC{eng: eng, fn: fn, key: key, con: eng.specs.Contracts[key], sorts: newSorts(eng.tags), declSeen: map[string]bool{},
+	return eng.buildVCWith(fn, eng.specs.Contracts[fnKey(fn)], fnKey(fn))
+}
+
+// buildVCWith verifies fn against contract con (its own, or a functype / interface contract it must refine).
+func (eng *Engine) buildVCWith(fn *ssa.Function, con *Contract, key string) (vc *FnVC) {
+	vc = &FnVC{eng: eng, fn: fn, key: key, con: con, sorts: newSorts(eng.tags), declSeen: map[string]bool{},
 		regs: map[ssa.Value]Val{}, tuples: map[ssa.Value][]Val{}, addrs: map[ssa.Value]*Addr{}, exitSt: map[*ssa.BasicBlock]*State{},
 		keySort: map[string]Sort{}, notes: map[string]bool{}, occ: map[string]int{}, allocNames: map[string][]*ssa.Alloc{},
 		paramVals: map[string]Val{}, callOcc: map[string]int{}, trustedUsed: map[string]bool{}, calleesUsed: map[string]bool{},
@@ -104,6 +108,23 @@ func (eng *Engine) buildVC(fn *ssa.Function) (vc *FnVC) {
 		vc.regs[p] = v
 		vc.paramVals[p.Name()] = v
 		vc.assume(vc.typeFacts(v))
+	}
+	// default precondition: pointer receivers are non-nil (asserted at every static call and Element invoke)
+	if fn.Signature.Recv() != nil && len(fn.Params) > 0 {
+		if _, isPtr := fn.Params[0].Type().Underlying().(*types.Pointer); isPtr {
+			vc.assume(sNot(sEq(vc.regs[fn.Params[0]].S, "0")))
+		}
+	}
+	if con != nil && con.Kind == "iface" && len(fn.Params) > 0 {
+		vc.assumeTypeInv(vc.regs[fn.Params[0]], true) // dispatch boundary
+	}
+	for _, p := range fn.Params {
+		vc.assumeTypeInv(vc.regs[p], false)
+	}
+	if con != nil && (con.Kind == "functype" || con.Kind == "iface") && len(con.Params) == len(fn.Params) {
+		for i, p := range fn.Params {
+			vc.paramVals[con.Params[i]] = vc.regs[p]
+		}
 	}
 	// free variables of closures: pointers to captured cells (or captured values)
 	for i, fv := range fn.FreeVars {
